@@ -46,6 +46,10 @@ pub struct Cell {
     /// records after it must appear as usual
     #[serde(default)]
     pub refuse_one: bool,
+    /// the appender is built by the `console` deserializer from a configuration section (target, tty_only, encoder
+    /// pattern; keys left out where the value is the documented default) instead of the builder
+    #[serde(default)]
+    pub via_config: bool,
 }
 
 /// Refuses records whose message is "refuse-me"; everything else goes to the real encoder.
@@ -131,10 +135,29 @@ pub fn child_main(args: &[String]) -> i32 {
     let cell: Cell = serde_json::from_str(&std::fs::read_to_string(file).expect("case file")).expect("case json");
     let target = if cell.target_stderr { Target::Stderr } else { Target::Stdout };
     let encoder = Box::new(Refusing(PatternEncoder::new(&print(&cell.pat, false))));
-    let app = if cell.tty_only_first {
-        ConsoleAppender::builder().tty_only(cell.tty_only).encoder(encoder).target(target).build()
+    let app: Box<dyn Append> = if cell.via_config && !cell.refuse_one {
+        use serde_value::Value as V;
+        let s = |x: &str| V::String(x.to_string());
+        let mut enc = std::collections::BTreeMap::new();
+        enc.insert(s("kind"), s("pattern"));
+        enc.insert(s("pattern"), s(&print(&cell.pat, false)));
+        let mut m = std::collections::BTreeMap::new();
+        // documented defaults: target stdout, tty_only false - left out in every other cell that has them
+        if cell.target_stderr || cell.tty_only_first {
+            m.insert(s("target"), s(if cell.target_stderr { "stderr" } else { "stdout" }));
+        }
+        if cell.tty_only || !cell.tty_only_first {
+            m.insert(s("tty_only"), V::Bool(cell.tty_only));
+        }
+        m.insert(s("encoder"), V::Map(enc));
+        match log4rs::config::Deserializers::default().deserialize::<dyn Append>("console", V::Map(m)) {
+            Ok(a) => a,
+            Err(_) => return 5,
+        }
+    } else if cell.tty_only_first {
+        Box::new(ConsoleAppender::builder().tty_only(cell.tty_only).encoder(encoder).target(target).build())
     } else {
-        ConsoleAppender::builder().target(target).tty_only(cell.tty_only).encoder(encoder).build()
+        Box::new(ConsoleAppender::builder().target(target).tty_only(cell.tty_only).encoder(encoder).build())
     };
     let other = if cell.also_other {
         Some(
@@ -579,7 +602,7 @@ fn cell_at(idx: usize, pat: Pat) -> Cell {
     let tg = i % 2;
     i /= 2;
     let to = i % 2;
-    Cell { no_color: v(nc), clicolor: v(cc), clicolor_force: v(cf), stdout_tty: so == 1, stderr_tty: se == 1, target_stderr: tg == 1, tty_only: to == 1, pat, also_other: false, repeat: 1, literal: None, tty_only_first: false, refuse_one: false }
+    Cell { no_color: v(nc), clicolor: v(cc), clicolor_force: v(cf), stdout_tty: so == 1, stderr_tty: se == 1, target_stderr: tg == 1, tty_only: to == 1, pat, also_other: false, repeat: 1, literal: None, tty_only_first: false, refuse_one: false, via_config: false }
 }
 
 pub const CELLS: usize = 27 * 2 * 2 * 2 * 2;
@@ -715,7 +738,7 @@ pub fn check_shared(tmp: &Path, c: &Shared, obs: &mut Obs) -> CaseResult {
         Node::Fmt { kind: Kind::Highlight(vec![Node::Fmt { kind: Kind::Message, long: false, spec: None }]), long: false, spec: None },
         Node::Fmt { kind: Kind::Newline, long: false, spec: None },
     ];
-    let cell = Cell { no_color: None, clicolor: None, clicolor_force: Some("1".into()), stdout_tty: false, stderr_tty: false, target_stderr: true, tty_only: false, pat, also_other: false, repeat: c.repeat, literal: None, tty_only_first: false, refuse_one: false };
+    let cell = Cell { no_color: None, clicolor: None, clicolor_force: Some("1".into()), stdout_tty: false, stderr_tty: false, target_stderr: true, tty_only: false, pat, also_other: false, repeat: c.repeat, literal: None, tty_only_first: false, refuse_one: false, via_config: false };
     let file = dir.join("cell.json");
     std::fs::write(&file, serde_json::to_string(&cell).unwrap()).unwrap();
     let mut fds = [0 as libc::c_int; 2];
@@ -792,6 +815,7 @@ pub fn run(run: &Run) {
             // builder call order and a refused record vary with the cell
             cell.tty_only_first = (idx / 3 + pass) % 2 == 0;
             cell.refuse_one = (idx / 7 + pass) % 3 == 0;
+            cell.via_config = (idx / 2 + pass) % 3 == 1;
             if !run.eval_one("matrix", &cell, &move |c: &Cell, o: &mut Obs| check_cell(&t2, c, o)) {
                 ok = false;
                 break 'outer;
@@ -815,7 +839,7 @@ pub fn run(run: &Run) {
                         if idx % run.worker.1 != run.worker.0 {
                             continue;
                         }
-                        let cell = Cell { no_color: None, clicolor: None, clicolor_force: if k % 2 == 0 { Some("1".into()) } else { None }, stdout_tty: tty && !target_stderr, stderr_tty: tty && target_stderr, target_stderr, tty_only: false, pat: pat.clone(), also_other: false, repeat: 1, literal: Some(k), tty_only_first: k % 2 == 1, refuse_one: false };
+                        let cell = Cell { no_color: None, clicolor: None, clicolor_force: if k % 2 == 0 { Some("1".into()) } else { None }, stdout_tty: tty && !target_stderr, stderr_tty: tty && target_stderr, target_stderr, tty_only: false, pat: pat.clone(), also_other: false, repeat: 1, literal: Some(k), tty_only_first: k % 2 == 1, refuse_one: false, via_config: k % 3 == 2 };
                         let t3 = tmp.clone();
                         run.eval_one("literal-args", &cell, &move |c: &Cell, o: &mut Obs| check_cell(&t3, c, o));
                     }
